@@ -137,6 +137,23 @@ Proof.
   unfold geth. rewrite Eh. auto.
 Qed.
 
+Lemma InvC_same c s s' :
+  ready s' = ready s -> handles s' = handles s -> futs s' = futs s -> tasks s' = tasks s ->
+  blocks s' = blocks s -> timers s' = timers s -> InvC c s -> InvC c s'.
+Proof.
+  intros Er Eh Ef Et Eb Em I.
+  assert (W : WF s').
+  { pose proof (i_wf I) as W0. eapply WF_obs; [exact W0|..]; rewrite ?Er, ?Ef, ?Et; auto.
+    - apply W0.
+    - unfold gett. rewrite Et. auto.
+    - unfold gett. rewrite Et. intros. apply W0; auto. }
+  eapply InvC_obs; [exact I|exact W|..]; rewrite ?Et; auto.
+  + intros t. apply hcnt_perm; rewrite ?Er; auto. unfold geth. rewrite Eh. auto.
+  + unfold fdone, getf. rewrite Ef. auto.
+  + unfold ccnt, getf. rewrite Ef. auto.
+  + unfold gett. rewrite Et. auto.
+Qed.
+
 (* a change that touches none of: ready, handles, futs, tasks, blocks, timers, current *)
 Lemma K_same c s0 s s' :
   ready s' = ready s -> handles s' = handles s -> futs s' = futs s -> tasks s' = tasks s ->
@@ -951,7 +968,8 @@ Lemma attach_step c c' s0 s1 t hc :
   (forall t', t' <> t -> hcnt s1 t' = hcnt s0 t') ->
   (tdone s0 t = false -> hcnt s1 t = 0 /\ forall g, fdone s1 g = false -> ccnt s1 t g = 0) ->
   forall x, tfut x = tfut (gett s1 t) -> tcont_ok s1 (tcont_ x) ->
-            (match twaiter x with Some f => fdone s1 f = true | None => True end) ->
+            (tdone s0 t = false ->
+             match twaiter x with Some f => fdone s1 f = true | None => True end) ->
   InvC c' (call_soon_ (sett s1 t x) hc).
 Proof.
   intros I W1 Hhc Ht Hct Hcur Hic Et Ef Ec Eh HC0 x Hx Hk Hw.
@@ -984,7 +1002,7 @@ Proof.
     { unfold tdone in *. rewrite Eg in Hd. unfold s2 in Hd. rewrite gett_sett_same in Hd by auto.
       change (fdone s1 (tfut x) = false) in Hd. rewrite Hx, Ef in Hd. unfold gett in Hd.
       rewrite Et in Hd. exact Hd. }
-    destruct (HC0 Hd0) as [H0 C0].
+    destruct (HC0 Hd0) as [H0 C0]. specialize (Hw Hd0).
     unfold cls. rewrite Hct. unfold RB.
     assert (Eb : bo (call_soon_ s2 hc) t = None).
     { unfold bo. rewrite Eg. unfold s2. rewrite gett_sett_same by auto.
@@ -1086,7 +1104,7 @@ Proof.
   assert (A4 : match twaiter x with Some f => fdone s1 f = true | None => True end) by exact Logic.I.
   exact (attach_step c c s s1 t (HStep t (Some e)) I W1 eq_refl Ht Hc (i_cur I)
            (fun _ _ => eq_refl) eq_refl Efd A1 (fun _ _ => eq_refl) (fun _ => conj R1 A2)
-           x eq_refl A3 A4).
+           x eq_refl A3 (fun _ => A4)).
 Qed.
 
 Lemma throw_runnable_inv c s t e h r' :
@@ -1112,7 +1130,7 @@ Proof.
   assert (A4 : match twaiter x with Some f => fdone s1 f = true | None => True end) by exact Logic.I.
   exact (attach_step c c s s1 t (HStep t (Some e)) I W1 eq_refl Ht Hc (i_cur I)
            (fun _ _ => eq_refl) eq_refl (fun _ => eq_refl) (fun _ _ _ _ => eq_refl) H2
-           (fun _ => conj A0 R2) x eq_refl A3 A4).
+           (fun _ => conj A0 R2) x eq_refl A3 (fun _ => A4)).
 Qed.
 
 Lemma K_task_throw c s0 s t e s' r : task_throw s t e = (s', r) -> K c s0 s -> K c s0 s'.
